@@ -319,6 +319,7 @@ func runC02Opens(t *testing.T, rep, n, rounds int, byRef bool) (epochs [][]strin
 }
 
 func TestC02(t *testing.T) {
+	syDebugWait = os.Getenv("SY_DEBUGW") != ""
 	em := NewEmitter()
 	defer em.Close()
 	sp := &sySpread{em: em, every: 6}
